@@ -3,7 +3,7 @@
 \* it: known_findings.d/C12.json, mm:server-crash-unencodable-payload-in-ticker-flush); the driver also runs
 \* it with the remaining invariants (TypeOK MmFramed MmOrder MmNoEmpty MmComplete MmFailed NoGarbage), which
 \* must hold: in a request that survives, the stream is what MmFailed says.
-\* measured: counterexample of 5 states (MMRecvAdd, MMTick, MMFlushTick), < 2 s; the other run 7,012 distinct states.
+\* measured: counterexample of 4 states (Init, MMRecvAdd, MMTick, MMFlushTick), < 2 s; the other run 4,226 distinct / 7,575 generated states, depth 17.
 INIT Init
 NEXT Next
 CONSTANTS
